@@ -15,6 +15,7 @@
 package validate
 
 import (
+	"math"
 	"reflect"
 	"strings"
 
@@ -189,7 +190,7 @@ func (t *typeValidator) Validate(data interface{}) *Result {
 	// TODO: check json.Number (see schema.go)
 	isLowerInt := t.Format == integerFormatInt64 && format == integerFormatInt32
 	isLowerFloat := t.Format == numberFormatFloat64 && format == numberFormatFloat32
-	isFloatInt := schType == numberType && swag.IsFloat64AJSONInteger(val.Float()) && t.Type.Contains(integerType)
+	isFloatInt := schType == numberType && isJSONInteger(val.Float()) && t.Type.Contains(integerType)
 	isIntFloat := schType == integerType && t.Type.Contains(numberType)
 
 	if kind != reflect.String && kind != reflect.Slice && t.Format != "" && !(t.Type.Contains(schType) || format == t.Format || isFloatInt || isIntFloat || isLowerInt || isLowerFloat) {
@@ -211,4 +212,12 @@ func (t *typeValidator) Validate(data interface{}) *Result {
 
 func (t *typeValidator) redeem() {
 	pools.poolOfTypeValidators.RedeemValidator(t)
+}
+
+// isJSONInteger tells whether a number decoded from JSON as a float is an integer: it has no fractional part
+// and lies in the range in which a float64 represents every integer.
+func isJSONInteger(f float64) bool {
+	const maxSafeInteger = 1<<53 - 1
+
+	return f == math.Trunc(f) && math.Abs(f) <= maxSafeInteger
 }
